@@ -159,6 +159,36 @@ var c20Mutations = []c20Mutation{
 		s.Trailers = append(s.Trailers, F{Name: "X-Trailer-Up", Value: "v"})
 		return true
 	}},
+	{"content-length-mismatch-put-right-in-trailers", func(rng *rand.Rand, s *reqSpec) bool {
+		// the request declares a length its body does not have; a second content-length, in the trailers, names the true
+		// one. The field the request was framed with is still wrong.
+		if s.EndMode != 3 || len(s.Trailers) == 0 {
+			return false
+		}
+		dropContentLength(s)
+		n := len(s.Body)
+		s.Fields = append(s.Fields, F{Name: "content-length", Value: fmt.Sprint(n + 1 + rng.Intn(50))})
+		s.Trailers = append(s.Trailers, F{Name: "content-length", Value: fmt.Sprint(n)})
+		return true
+	}},
+}
+
+// c20PseudoOnlyThenTrailers: a request whose header block holds pseudo-headers only (no regular field at all, :authority
+// left out), a body, and a trailer block that carries a pseudo-header: "all pseudo-headers before the regular fields" has
+// nothing to go by in the first block, and pseudo-headers are not allowed in trailers (RFC 7540 8.1.2.1).
+func c20PseudoOnlyThenTrailers(rng *rand.Rand, s *reqSpec) bool {
+	if s.EndMode != 3 || len(s.Trailers) == 0 {
+		return false
+	}
+	s.Fields = nil
+	removePseudo(s, ":authority")
+	tr := []F{{Name: ":authority", Value: "late.example"}, {Name: ":path", Value: "/late"}, {Name: ":method", Value: "DELETE"}}[rng.Intn(3)]
+	if tr.Name != ":authority" || rng.Intn(2) == 0 {
+		s.Trailers = insertAt(s.Trailers, rng.Intn(len(s.Trailers)+1), tr)
+	} else {
+		s.Trailers = []F{tr}
+	}
+	return true
 }
 
 // wellFormedRequest is the predicate of the property statement (RFC 7540 8.1.2), over the header list in wire order.
@@ -278,7 +308,9 @@ func c20Scenario(r *vf.Run, t *testing.T, id string, rng *rand.Rand, g genOpts) 
 	bad.SplitSeed, bad.TrailerSplits = nil, nil
 	var rules []string
 	wellFormed := rng.Intn(5) == 0
-	if !wellFormed {
+	if !wellFormed && rng.Intn(6) == 0 && c20PseudoOnlyThenTrailers(rng, bad) {
+		rules = append(rules, "pseudo-in-trailers-of-a-request-without-regular-fields")
+	} else if !wellFormed {
 		for k := 1 + rng.Intn(2); k > 0; k-- {
 			m := c20Mutations[rng.Intn(len(c20Mutations))]
 			if m.Apply(rng, bad) {
